@@ -42,5 +42,32 @@ CHECKS["C02"] = dict(
          "netconf.Driver.Get under several read segmentations; Result and Failed are compared with the prediction.",
     note="Trusted: TLC, the server model's framing. Byte classes limit chunk sizes to <= 22 in the exhaustive tier. Two genuine defects were repaired (fix: commits 9d3f9ee, 28b8a29); "
          "the read loop's '^##$' delimiter weakness is a recorded known finding.")
+CHECKS["C05"] = dict(
+    category="model_checking", design_ref="DESIGN.md §5 C05, §11",
+    technique="TLA+/TLC: Stall.tla models an operation as device-paced exchanges with Stall/Expire/CatchUp environment actions, checked for every cut and every stall point; "
+              "its predictions for the real operations' lengths are replayed as fault enumeration (device goes silent after byte k) on 18 real operations",
+    text="Stall.tla: the outcome of an operation under a stall after byte k is a function of (operation, k) for every segmentation (invariant OutcomeIsFunction), success is never partial, the "
+         "operation never stays stuck (mc mode over length-compressed operations, exhaustive). In emit mode TLC prints the predicted class for every byte of every standard operation, whose exchange "
+         "structure is exported from the device side of a fault-free run. The harness stalls the scripted device at that byte for generic/network/NETCONF operations and in-channel logins and checks: "
+         "timeout-class error (privilege class allowed for an implicit privilege change), duration within effective timeout + slack and not before it, per-operation over connection-wide precedence "
+         "(shorter, longer, zero = maximum), a success only with the complete result, and after catch-up the next exchange returns its own result.",
+    note="Trusted: TLC; wall-clock bounds (400 ms slack on 90-260 ms timeouts, candidates re-executed alone before being reported); the device-side exchange lengths. Quick: thresholds +-1 and every 3rd/5th byte; thorough: every byte x 3 segmentations.")
+CHECKS["C06"] = dict(
+    category="model_checking", design_ref="DESIGN.md §5 C06, §11",
+    technique="TLA+/TLC: Stall.tla with Lose actions (EOF / persistent read error / write error at byte k) checked for every cut; predictions replayed as fault enumeration on the same 18 real "
+              "operations in isolated child processes so that a panic in a library goroutine is observed and attributed",
+    text="Same specification as C05 with the connection lost at byte k: the operation in flight ends with an error (never a timeout, never a partial success), for every cut. The harness makes the "
+         "scripted transport return io.EOF or a persistent error from byte k on (with writes failing, or still accepted as on a half-closed connection), or fail writes, for every standard operation; it "
+         "checks prompt error (< 1 s with a 4 s timeout), later operations failing fast, completeness of any success, and process survival (each scenario runs in a child process).",
+    note="Trusted: TLC, the loss model of the scripted transport. Sessions are not closed after a loss here (closing in those states is C07). One genuine defect found and repaired (31f9756).")
+CHECKS["C07"] = dict(
+    category="model_checking", design_ref="DESIGN.md §5 C07, §12",
+    technique="TLA+/TLC: PlusCal model of the shutdown protocol with explicit Go channel semantics, labels = yield points of the code; every interleaving over feed x closes x close behaviour x driver; "
+              "orderings of pairs of yield points forced on the real goroutines through build-tag hooks in every connection state, observed from outside (Close returns, process death, goroutine census, race detector)",
+    text="Lifecycle.tla (reader, closer, helper, in-flight operation, NETCONF reader) is checked for NoPanic, CloseReturns, NoLeak, TransportClosed over all 72 matrix cells in one run; the pinned commit's "
+         "protocol (v0) is kept in the module and must be rejected (vacuity guard). TLC found the helper-goroutine leak before any test did. The harness drives generic/network/NETCONF sessions into 8 "
+         "connection states (idle, EOF, persistent error, data/error/EOF arriving during Close, operation in flight, error already reported), closes once or twice, with 3 transport close behaviours, and "
+         "delays the goroutine reaching yield point b until a was reached; each run is a child process; verdicts come only from observable behaviour.",
+    note="Trusted: TLC; the gate (15 ms bound) as scheduler; runtime.Stack census (a reader stuck in a transport Read that never returns is not a leak). Five genuine defects repaired by fix: commits 31f9756, 46f498f, 9f0231e, 0de6c00.")
 PENDING_REASON = "check not built yet in this session (work in progress; see DESIGN.md §5 for the planned TLA+ specification and binding)"
 NOT_APPLICABLE = {}
